@@ -31,6 +31,24 @@ def make_grid(spec):
         g = pp.StructuredTriangleGrid(spec["n"])
     elif spec["type"] == "cart3":
         g = pp.CartGrid(spec["n"])
+    elif spec["type"] == "delaunay":
+        # unstructured triangle grid on given points / on n[0] random points
+        if "points" in spec:
+            g = pp.TriangleGrid(np.array(spec["points"], dtype=float))
+            g.compute_geometry()
+            return g
+        rs = np.random.RandomState(spec["pseed"])
+        for _ in range(200):  # reject slivers (keeps the local systems well conditioned)
+            try:
+                g = pp.TriangleGrid(rs.rand(2, spec["n"][0]))
+                g.compute_geometry()
+            except Exception:
+                continue
+            if g.num_cells >= 2 and g.cell_volumes.min() > 0.01:
+                return g
+        g = pp.StructuredTriangleGrid([2, 2])
+        g.compute_geometry()
+        return g
     else:
         raise ValueError(spec["type"])
     rs = np.random.RandomState(spec["pseed"])
@@ -174,12 +192,11 @@ class C14(Prop):
         "multiplicities: the sum over the subproblems of the local results with the rows "
         "outside faces_in_subgrid zeroed, mapped through l2g_faces and divided by "
         "bincount(concatenate(faces_in_subgrid)) equals the one-piece matrix on every face "
-        "(C14_split_sum_partial; guard: no subproblem after the first takes the 'all faces are "
-        "mine' shortcut, which replaces the accumulated sum - C14_split_sum_refuted shows the "
-        "transcribed loop is wrong without it); after a partial update the rows of the active "
+        "(C14_split_sum; the loop as it was before the repair, whose 'all faces are mine' "
+        "shortcut replaced the accumulated sum, is shown wrong by C14_unrepaired_loop_wrong); after a partial update the rows of the active "
         "faces equal the one-piece rows, in update mode all other rows are untouched, otherwise "
         "zero (C14_partial_update); the boolean certificate family_ok (injective local-to-global "
-        "maps, responsibility sets inside them, coverage of all faces, the shortcut guard) "
+        "maps, responsibility sets inside them, coverage of all faces) "
         "implies the structural hypotheses (C14_certificate_sound). The executable bookkeeping "
         "model (cell_ind_for_partial_update in its three modes, subproblems, repetition counts, "
         "eliminated rows, find_active_indices) is tied to the real functions on every run and "
@@ -198,7 +215,7 @@ class C14(Prop):
         "matrices are compared after partial discretisation only on cells all of whose faces "
         "are active; Biot's update mode (update_discretization=True) is not exercised.")
     rule = ("2-D Cartesian (3x3..6x5) and structured triangle grids with perturbed interior "
-            "nodes, thorough: also 3x3x2..4x3x3 Cartesian; random anisotropic tensors and mixed "
+            "nodes, few-cell Delaunay triangulations of random points (unbalanced partitions), thorough: also 3x3x2..4x3x3 Cartesian; random anisotropic tensors and mixed "
             "boundary conditions; kinds: bookkeeping of subproblems(k=1..8) and of "
             "cell_ind_for_partial_update (cells/faces/nodes, single and combined), split "
             "discretisation, partial discretisation, update after parameter change, inverter "
@@ -208,8 +225,8 @@ class C14(Prop):
         "locality of the MPFA/MPSA/Biot kernels: hypothesis local_ok, tested by the oracle only",
     ]
     assumptions = [
-        "no subproblem after the first covers every face of the active grid (checked by Coq "
-        "on every family of subproblems the real code produced)",
+        "every face is in the responsibility set of some subproblem and the local-to-global "
+        "face maps are injective (checked by Coq on every family the real code produced)",
     ]
 
     # ---------------------------------------------------------------- generation
@@ -218,6 +235,11 @@ class C14(Prop):
         if tier != "quick" and r < 0.2 and not small:
             n = [rng.randint(3, 4), 3, rng.randint(2, 3)]
             t = "cart3"
+        elif r < 0.15 and not small:
+            # few-cell Delaunay grids: unbalanced coordinate partitions, a part can touch
+            # every node (the "all faces are mine" shortcut in the middle of the loop)
+            return {"type": "delaunay", "n": [rng.randint(4, 9)], "perturb": 0,
+                    "pseed": rng.randrange(10**6)}
         elif r < 0.65:
             n = [rng.randint(3, 6), rng.randint(3, 5)]
             t = "cart"
